@@ -21,6 +21,7 @@ use crossbeam_channel::{unbounded, Receiver, RecvTimeoutError, Sender};
 use serde_json::json;
 use std::cell::RefCell;
 use std::collections::BTreeSet;
+use std::sync::atomic::{AtomicBool, Ordering};
 use std::sync::{Arc, Mutex};
 use std::time::Duration;
 use umharness::util::*;
@@ -260,6 +261,8 @@ enum Msg {
 struct Ctx {
     tx: Sender<Msg>,
     go: Vec<Receiver<()>>,
+    /// set when the scheduler abandons a schedule: threads stop parking and run to completion
+    free_run: AtomicBool,
 }
 
 thread_local! {
@@ -269,6 +272,9 @@ thread_local! {
 fn hook(point: &'static str) {
     let me = CTX.with(|c| c.borrow().clone());
     if let Some((tid, ctx)) = me {
+        if ctx.free_run.load(Ordering::SeqCst) {
+            return;
+        }
         let _ = ctx.tx.send(Msg::Parked(tid, point));
         // wait for the scheduler; if it is gone (harness failure path) just run on
         if let Some(g) = ctx.go.get(tid) {
@@ -287,6 +293,7 @@ struct Exec {
     cfg: Config,
     queue: Arc<Queue>,
     rec: Arc<Rec>,
+    ctx: Arc<Ctx>,
     rx: Receiver<Msg>,
     go_tx: Vec<Sender<()>>,
     joins: Vec<Option<std::thread::JoinHandle<Option<BlockingHandle<RecRedisp>>>>>,
@@ -334,11 +341,12 @@ impl Exec {
             go_tx.push(a);
             go_rx.push(b);
         }
-        let ctx = Arc::new(Ctx { tx: tx.clone(), go: go_rx });
+        let ctx = Arc::new(Ctx { tx: tx.clone(), go: go_rx, free_run: AtomicBool::new(false) });
         let mut ex = Exec {
             cfg: cfg.clone(),
             queue: queue.clone(),
             rec: rec.clone(),
+            ctx: ctx.clone(),
             rx,
             go_tx,
             joins: vec![],
@@ -572,6 +580,50 @@ impl Exec {
         StepOut { obs: line }
     }
 
+    /// stop scheduling: every parked thread is released and runs (truly concurrently) to its end.
+    /// Events of this tail are still subject to the end-of-case oracle, not to the barrier oracle.
+    fn abandon(&mut self) {
+        self.ctx.free_run.store(true, Ordering::SeqCst);
+        let mut live = 0;
+        for t in 0..self.at.len() {
+            if self.at[t].is_some() {
+                live += 1;
+                let _ = self.go_tx[t].send(());
+            }
+        }
+        while live > 0 {
+            match self.rx.recv_timeout(STEP_TIMEOUT) {
+                Ok(Msg::Finished(t)) => {
+                    self.at[t] = None;
+                    live -= 1;
+                }
+                Ok(Msg::Panicked(t)) => {
+                    self.at[t] = None;
+                    live -= 1;
+                    self.failures.push((format!("thread {} panicked", self.cfg.tid_name(t)), ""));
+                }
+                Ok(Msg::Ret(t, s)) => self.rets[t].push(s),
+                Ok(_) => {}
+                Err(_) => harness_failure(&format!("free-running threads did not finish within {:?} ({})", STEP_TIMEOUT, self.cfg.text())),
+            }
+        }
+        let evs: Vec<Ev> = std::mem::take(&mut *self.rec.events.lock().expect("events"));
+        for e in evs {
+            match e {
+                Ev::Handed(i, ok) => {
+                    if let Some(h) = self.handed.get_mut(i) {
+                        h.push(ok);
+                    }
+                }
+                Ev::Redisp(u) => {
+                    if let Some(r) = self.redisp.get_mut(u) {
+                        *r += 1;
+                    }
+                }
+            }
+        }
+    }
+
     /// all threads have finished: end-of-case oracle, cleanup
     fn finish(mut self) -> Vec<(String, &'static str)> {
         let k = self.cfg.senders.len();
@@ -668,8 +720,9 @@ fn independent(a: &str, b: &str) -> bool {
     let dep = |x: Kind, y: Kind| -> bool {
         match (x, y) {
             (RunW, RunR) | (WordR, WordW) | (WordW, WordW) | (Queue, Queue) => true,
-            // the oracles look at `handed` / `redisp` relative to done/blocking changes
-            (Hand, RunW) | (Hand, RunR) | (Hand, WordW) | (Redisp, WordW) | (Redisp, Queue) => true,
+            // the trace oracles order `handed` against a controller's `blocking_done()` and against
+            // changes of `blocking`, and `redisp` against changes of `blocking`
+            (Hand, RunR) | (Hand, WordW) | (Redisp, WordW) | (Redisp, Queue) => true,
             _ => false,
         }
     };
@@ -702,7 +755,11 @@ fn emit_case(
         }
         let t = match choose(&ex, &en) {
             Some(t) => t,
-            None => en[0],
+            None => {
+                ex.abandon();
+                s.stats.count("out.abandoned_free_run");
+                break;
+            }
         };
         let out = ex.step(t);
         let op = cfg.tid_text(t);
@@ -874,11 +931,13 @@ fn gen_config(rng: &mut Rng, st: &mut Stats) -> Config {
     for _ in 0..m {
         let p: Vec<char> = if rng.chance(1, 8) {
             let n = rng.below(6) as usize;
+            st.count("gen.ctrl.random_program");
             (0..n).map(|_| *rng.pick(&['S', 'P', 'D', 'R'])).collect()
         } else {
-            rng.pick(&templates).chars().collect()
+            let t = *rng.pick(&templates);
+            st.count(&format!("gen.ctrl.{}", t));
+            t.chars().collect()
         };
-        st.count(&format!("gen.ctrl.{}", if p.is_empty() { "_".to_string() } else { p.iter().collect::<String>() }));
         ctrls.push(p);
     }
     Config { senders, ctrls }
@@ -925,45 +984,55 @@ fn replay_file(s: &mut Streams, path: &std::path::Path) {
                     return Some(t);
                 }
             }
-            None
+            en.first().copied()
         });
     }
 }
 
+fn cfg(senders: &[(Hint, bool)], ctrls: &[&str]) -> Config {
+    Config { senders: senders.to_vec(), ctrls: ctrls.iter().map(|p| p.chars().collect()).collect() }
+}
+
+/// (configuration, cap on the number of executions).  The caps of the first group are far above
+/// the size of the reduced schedule space, so these configurations are searched exhaustively (up to
+/// the independence relation); `stats.json` lists which searches completed.
 fn thorough_configs() -> Vec<(Config, u64)> {
-    let hints = [Hint::N, Hint::B, Hint::M(0), Hint::M(2)];
+    use Hint::*;
     let mut out = vec![];
-    let progs_1: [&[&str]; 3] = [&["SPD"], &["SPPD"], &["SD"]];
-    // k = 2 senders, every unordered pair of hints, one blocking period
-    for (pi, progs) in progs_1.iter().enumerate() {
-        for a in 0..hints.len() {
-            for b in a..hints.len() {
-                if pi > 0 && !(a == 0 || b == 3) {
-                    continue;
-                }
-                out.push((
-                    Config {
-                        senders: vec![(hints[a], true), (hints[b], true)],
-                        ctrls: progs.iter().map(|p| p.chars().collect()).collect(),
-                    },
-                    6000,
-                ));
-            }
+    // k = 2 senders, one blocking period with a poll: every class of hint pair
+    for (a, b) in [(N, N), (N, B), (N, M(0)), (B, M(0))] {
+        out.push((cfg(&[(a, true), (b, true)], &["SPD"]), 40_000));
+    }
+    // one period without poll: remaining hint pairs; inner sender answering Retry
+    for (a, b) in [(M(0), M(2)), (B, B), (M(2), M(2)), (N, M(2))] {
+        out.push((cfg(&[(a, true), (b, true)], &["SD"]), 40_000));
+    }
+    out.push((cfg(&[(N, false), (N, true)], &["SD"]), 40_000));
+    out.push((cfg(&[(M(0), false), (B, true)], &["SPD"]), 40_000));
+    // stop_blocking during blocking; handle never dropped
+    out.push((cfg(&[(N, true), (N, true)], &["SRD"]), 40_000));
+    out.push((cfg(&[(N, true), (B, true)], &["SP"]), 40_000));
+    // two blocking periods, k = 1: sequential and overlapping
+    out.push((cfg(&[(N, true)], &["SPDSPD"]), 40_000));
+    out.push((cfg(&[(M(1), true)], &["SPDSPD"]), 40_000));
+    out.push((cfg(&[(N, true)], &["SD", "SD"]), 40_000));
+    out.push((cfg(&[(M(2), true)], &["SPD", "SD"]), 40_000));
+    // two blocking periods, k = 2: too large to exhaust, DFS prefix (plus random schedules below)
+    for (a, b) in [(N, N), (M(0), B)] {
+        out.push((cfg(&[(a, true), (b, true)], &["SDSPD"]), 6_000));
+        out.push((cfg(&[(a, true), (b, true)], &["SPD", "SD"]), 6_000));
+    }
+    out
+}
+
+fn two_period_configs() -> Vec<Config> {
+    use Hint::*;
+    let mut out = vec![];
+    for (a, b) in [(N, N), (N, M(2)), (M(0), B), (M(2), M(2)), (N, B), (M(1), M(3))] {
+        for ctrls in [&["SDSPD"][..], &["SPD", "SD"][..], &["SPDSPD"][..], &["SPD", "SPD"][..]] {
+            out.push(cfg(&[(a, true), (b, true)], ctrls));
         }
     }
-    // inner sender refusing
-    out.push((Config { senders: vec![(Hint::N, false), (Hint::N, true)], ctrls: vec!["SPD".chars().collect()] }, 6000));
-    out.push((Config { senders: vec![(Hint::M(0), false), (Hint::B, true)], ctrls: vec!["SPD".chars().collect()] }, 6000));
-    // two blocking periods: sequential in one controller, overlapping in two controllers
-    for (a, b) in [(Hint::N, Hint::N), (Hint::N, Hint::M(2)), (Hint::M(0), Hint::B), (Hint::M(2), Hint::M(2))] {
-        out.push((Config { senders: vec![(a, true), (b, true)], ctrls: vec!["SDSPD".chars().collect()] }, 8000));
-        out.push((Config { senders: vec![(a, true), (b, true)], ctrls: vec!["SPD".chars().collect(), "SD".chars().collect()] }, 8000));
-    }
-    // stop_blocking during blocking; leaked handle; k = 1 with two full periods
-    out.push((Config { senders: vec![(Hint::N, true), (Hint::N, true)], ctrls: vec!["SRD".chars().collect()] }, 6000));
-    out.push((Config { senders: vec![(Hint::N, true), (Hint::B, true)], ctrls: vec!["SP".chars().collect()] }, 4000));
-    out.push((Config { senders: vec![(Hint::N, true)], ctrls: vec!["SPDSPD".chars().collect()] }, 6000));
-    out.push((Config { senders: vec![(Hint::N, true)], ctrls: vec!["SD".chars().collect(), "SD".chars().collect()] }, 6000));
     out
 }
 
@@ -974,6 +1043,12 @@ fn main() {
     set_point_hook(Some(Arc::new(hook)));
     if let Some(p) = &args.replay {
         replay_file(&mut s, p);
+    } else if let Some(c) = args.extra.get("dfs") {
+        // experimentation: exhaustive search of one configuration, e.g. --dfs "init N:1,N:1 SPD" --cap 100000
+        let cfg = Config::parse(c).unwrap_or_else(|| harness_failure("bad --dfs configuration"));
+        let cap = args.extra.get("cap").and_then(|x| x.parse().ok()).unwrap_or(1_000_000);
+        let (runs, complete) = dfs(&mut s, &cfg, cap);
+        eprintln!("dfs {}: runs={} complete={}", c, runs, complete);
     } else if args.thorough {
         // exhaustive (up to the independence relation) for the small configurations
         let mut exhaustive = vec![];
@@ -990,6 +1065,12 @@ fn main() {
         }
         s.stats.extra.insert("dfs_exhaustive".into(), json!(exhaustive));
         s.stats.extra.insert("dfs_capped".into(), json!(capped));
+        let two = two_period_configs();
+        for i in 0..4000usize {
+            let cfg = two[i % two.len()].clone();
+            s.stats.count("gen.two_period_k2_random");
+            random_case(&mut s, &cfg, &mut rng);
+        }
         for _ in 0..6000 {
             let cfg = gen_config(&mut rng, &mut s.stats);
             random_case(&mut s, &cfg, &mut rng);
